@@ -899,7 +899,7 @@ theorem scan_empty (tol : Bool) (fid : Nat) :
   simpa [appendAll, posAll] using this
 
 /-- `Open` on a directory that does not exist yet (empty world) -/
-theorem openDB_fresh (dir : String) (cfg : Cfg) (h : cfg.fileSize > 0) :
+theorem openDB_fresh (dir : String) (cfg : Cfg) (h : cfg.Valid) :
     openDB St.init dir cfg =
       ({ world := [(dir, { DirSt.empty with data := [(0, ⟨ByteArray.empty, 0⟩)], locked := true })],
          db := some { cfg := cfg, dir := dir, activeId := 0, index := [], reclaim := 0, total := 0,
@@ -911,7 +911,7 @@ theorem openDB_fresh (dir : String) (cfg : Cfg) (h : cfg.fileSize > 0) :
       = some ({ index := [], reclaim := 0, total := 0, pending := [] }, ⟨ByteArray.empty, 0⟩) := by
     simp [loadFile, scan_empty]
   simp [openDB, St.init, World.get, World.set, hadopt, loadIndex, hload,
-    show cfg.fileSize ≠ 0 by omega, show DirSt.empty.locked = false from rfl,
+    if_neg h.not_rejected, show DirSt.empty.locked = false from rfl,
     show DirSt.empty.data = [] from rfl]
 
 /-- the freshly opened empty database satisfies the invariant, with one empty ghost file -/
